@@ -1014,6 +1014,13 @@ def hook_part(seed, tier="quick", model=False, pid="C07"):
                 if how == "incremental":
                     xs = xs[::3]
                 canon = [r.prefix for r in c.records]
+                # the pair methods never consult the hook: whole mode matrix, known / synonym / unknown prefixes, identifiers the hooks rewrite or reject
+                if how == "constructor":
+                    for p in ("GO", "go", "OBO", "", "dflt", "nope"):
+                        for ident in ("1", "0032571", "nope", "", "a b", "GO" + delim + "1"):
+                            row = impl.pair_row(I, c, ci, p, ident, True)
+                            calls.append({"ci": ci, "p": row["p"], "id": row["id"], "delim": I(delim), "a": row["a"], "h": []})
+                            metas.append({"hook": cls.__name__, "delimiter": delim, "built": how, "x": [p, ident], "answers": row["a"]})
                 for x in dict.fromkeys(xs):
                     a = {}
                     # every method in every mode (the whole strict x passthrough matrix; parse_uri also in the legacy return_none=False mode)
@@ -1044,6 +1051,8 @@ def hook_part(seed, tier="quick", model=False, pid="C07"):
     lines, violations = [], 0
     for g, k, clause in fails:
         mine = (clause[0].startswith("mon.C08.") or (clause[0].startswith("ans.hook.") and "@" in clause[0])) == (pid == "C08")
+        if clause[0].startswith("ans.hook.pair.") and "@" not in clause[0]:
+            mine = pid == "C07"          # default-mode pair answers: reported once, by the C07 check
         if not mine:
             continue
         violations += 1
